@@ -57,7 +57,7 @@ func (eng *Engine) writeReplay(root, prop string, v *violation, frs []*FuncResul
 		writeJSON(v.replay, rec)
 		return
 	}
-	os.WriteFile(filepath.Join(dir, "query.smt2"), []byte(or.Query), 0o644)
+	os.WriteFile(filepath.Join(dir, "query.smt2"), []byte(ExactQuery(or.Query)), 0o644)
 	os.WriteFile(filepath.Join(dir, "solver.out"), []byte(or.Output), 0o644)
 	rec["status"] = or.Status
 	rec["solver"] = or.Solver
